@@ -1053,6 +1053,19 @@ func (sd *shardDelegate) MergeRemoteState(buf []byte, join bool) {
 		}
 		sd.manager.remoteNodeStates[state.NodeName] = state
 		sd.manager.remoteNodeStatesMu.Unlock()
+
+		// A state exchange can be the first (or only) news of a newer claim: announcements are only sent to nodes the
+		// claimant already held state for. Apply the same rule as NotifyMsg: a newer remote claim supersedes a local one.
+		if state.NodeName != sd.manager.GetNodeName() {
+			for _, remoteShard := range state.Shards {
+				sd.manager.mutex.RLock()
+				localShard, ok := sd.manager.localShards[ClusterShardIDtoShortString(remoteShard.ID)]
+				sd.manager.mutex.RUnlock()
+				if ok && localShard.Created.Before(remoteShard.Created) {
+					sd.manager.UnregisterShard(remoteShard.ID, localShard.Created)
+				}
+			}
+		}
 	}
 
 	sd.logger.Debug("Merged remote shard state",
